@@ -25,13 +25,13 @@ func c10cli(c *ev.Ctx) {
 	}
 	second, _ := refage.WrapScrypt(fk, pass, lab.Plain(16, 79), 2)
 	xst, _ := refage.WrapX25519(fk, keys.X(0).XPublic, lab.Plain(32, 80))
-	others := []refage.Stanza{xst, {Type: "grease-1", Args: []string{"a"}, Body: []byte{1, 2, 3}}, {Type: "x-grease-y", Body: nil}, {Type: "grease", Body: []byte("g")}, second, {Type: "Scrypt", Args: good.Args, Body: good.Body}}
-	oname := []string{"X25519", "grease-1", "x-grease-y", "grease", "scrypt2", "Scrypt-case"}
+	others := []refage.Stanza{xst, {Type: "grease-1", Args: []string{"a"}, Body: []byte{1, 2, 3}}, {Type: "x-grease-y", Body: nil}, {Type: "grease", Body: []byte("g")}, {Type: "x-grease", Body: []byte("h")}, second, {Type: "Scrypt", Args: good.Args, Body: good.Body}}
+	oname := []string{"X25519", "grease-1", "x-grease-y", "grease", "x-grease", "scrypt2", "Scrypt-case"}
 	idLine := strings.ToUpper(refage.Bech32Encode("AGE-SECRET-KEY-", keys.X(0).XSecret)) + "\n"
 	toX0, _ := keys.X(0).Rcpt.Wrap(lab.Plain(16, 90))
 	maxSt := c.Pick(4, 5)
 	c.Part("cmd-age-passphrase-identities")
-	c.Bound("cmd/age LazyScryptIdentity (age -d without -i) and EncryptedIdentity (passphrase-protected identity file): headers of 1..%d stanzas with one correct scrypt stanza at every position among {X25519, three grease spellings, second scrypt, wrong-case type} stanzas; right passphrase available; prompts and scrypt derivations are counted", maxSt)
+	c.Bound("cmd/age LazyScryptIdentity (age -d without -i) and EncryptedIdentity (passphrase-protected identity file): headers of 1..%d stanzas with one correct scrypt stanza at every position among {X25519, four grease spellings, second scrypt, wrong-case type} stanzas; right passphrase available; prompts and scrypt derivations are counted", maxSt)
 	cnt := 0
 	var rec func(cur []int)
 	rec = func(cur []int) {
